@@ -70,6 +70,7 @@ type Call struct {
 	Enter  int64
 	Exit   int64 // 0 while running
 	Err    string
+	ErrVal error `json:"-"`
 	Fault  string
 	Conn   int
 }
@@ -181,6 +182,7 @@ type FS struct {
 	jitter        uint64 // non-zero: seed for scheduling perturbation
 	NoLog         bool   // keep only counters (long stress runs)
 	CloseErr      error  // returned by Close
+	Recursive     bool   // UnlinkAt / RenameAt remove or replace non-empty directories (a backend may)
 }
 
 // New creates an empty file system with a root directory.
@@ -515,6 +517,7 @@ func (fs *FS) exit(h *H, c *Call, err error) {
 	c.Exit = rawpeer.Tick()
 	if err != nil {
 		c.Err = err.Error()
+		c.ErrVal = err
 	}
 	delete(fs.active, c.ID)
 	if h != nil {
@@ -1285,7 +1288,7 @@ func (h *H) RenameAt(oldName string, newDir p9.File, newName string) (err error)
 			if !n.Mode.IsDir() {
 				return linux.EISDIR
 			}
-			if len(ex.Children) > 0 {
+			if len(ex.Children) > 0 && !h.fs.Recursive {
 				return linux.ENOTEMPTY
 			}
 		} else if n.Mode.IsDir() {
@@ -1314,7 +1317,7 @@ func (h *H) UnlinkAt(name string, flags uint32) (err error) {
 	if !ok {
 		return linux.ENOENT
 	}
-	if n.Mode.IsDir() && len(n.Children) > 0 {
+	if n.Mode.IsDir() && len(n.Children) > 0 && !h.fs.Recursive {
 		return linux.ENOTEMPTY
 	}
 	delete(d.Children, name)
